@@ -4,6 +4,7 @@ according to the possibility to import cplex.
 """
 
 from corankco.algorithms.exact.exactalgorithmbase import ExactAlgorithmBase
+from corankco.algorithms.exact import exactalgorithmcplex
 from corankco.algorithms.exact.exactalgorithmcplex import ExactAlgorithmCplex
 from corankco.algorithms.exact.exactalgorithmpulp import ExactAlgorithmPulp
 from corankco.scoringscheme import ScoringScheme
@@ -36,6 +37,8 @@ class ExactAlgorithm(ExactAlgorithmBase):
         """
         super().__init__(optimize)
         try:
+            if exactalgorithmcplex.cplex is None:
+                raise ModuleNotFoundError("No module named 'cplex'")
             self._alg = ExactAlgorithmCplex(optimize=optimize)
         except ModuleNotFoundError:
             self._alg = ExactAlgorithmPulp()
